@@ -129,3 +129,21 @@ def static_tags(spec: dict) -> t.Set[str]:
 
 def kinds_used(spec: dict) -> t.Set[str]:
     return {p[1] for nd in spec['nodes'].values() for p in nd['params'] if p[1] not in ('in', 'plain')}
+
+
+def share_switch_names(spec: dict) -> t.Optional[dict]:
+    """The same named SwitchCase mark used by several consumers: switch parameters with identical switch node and cases
+    get one name (one synthetic node with an edge to every consumer). None if no two parameters are identical."""
+    sp = json.loads(json.dumps(spec))
+    groups: t.Dict[str, list] = {}
+    for n, nd in sp['nodes'].items():
+        for p in nd['params']:
+            if p[1] == 'switch':
+                groups.setdefault(json.dumps([p[2]['switch'], p[2]['cases']]), []).append(p)
+    shared = False
+    for k, ps in groups.items():
+        if len(ps) > 1:
+            shared = True
+            for p in ps:
+                p[2]['name'] = ps[0][2]['name']
+    return sp if shared else None
